@@ -1,2 +1,3 @@
 import Proofs.Basic
 import Proofs.Codec
+import Proofs.Pool
